@@ -141,7 +141,7 @@ package parse
 //@   nopanic
 
 //@   ensures implies(old(cmtEnd(l, "\n")) >= 0, l.pos == old(l.pos) + 2 + old(cmtEnd(l, "\n")) + 1 && l.start == l.pos && result == funcval(lexStmt) && nsent(l.items) == old(nsent(l.items)))
-//@   ensures implies(old(cmtEnd(l, "\n")) < 0, sentTerminal(l) && result == nil)
+//@   ensures implies(old(cmtEnd(l, "\n")) < 0, l.pos == len(l.input) && l.start == l.pos && result == funcval(lexStmt) && nsent(l.items) == old(nsent(l.items)))
 
 //@ func lexSep
 //@   implements type:stateFn
